@@ -211,6 +211,19 @@ def check_chain(chain):
         try:
             got = SC.migrate(ctx, sdl)
         except st['errors'].EdgeDBError as e:
+            if 'incomplete migration' in str(e):
+                # the user did nothing wrong: the migration the SYSTEM computed
+                # for this step does not reach its own target, although the
+                # same target is reachable directly - the outcome depends on
+                # the path
+                try:
+                    build(sdl)
+                except st['errors'].EdgeDBError:
+                    return None, f'step {i + 1} target not accepted directly either'
+                return [f'step {i + 1}: the migration computed by the system from the '
+                        f'previous schema does not reach its target (COMMIT MIGRATION: '
+                        f'{str(e)[:80]}), while an empty database migrates to the same '
+                        f'target directly'], None
             return None, f'step {i + 1} refused: {type(e).__name__}: {str(e)[:120]}'
         try:
             _, direct = build(sdl)
@@ -287,6 +300,13 @@ def run_c10(tier, seed, rep):
             n += c
             incon += inc
             for v in out:
+                f0 = v['failed'][0]
+                if 'does not reach its target' in f0:
+                    k = int(f0.split(':')[0].split()[1])
+                    prev = v['chain'][k - 2] if k >= 2 else 'module default {}'
+                    rep.violation('incomplete-step:' + json.dumps([prev, v['chain'][k - 1]]),
+                                  f"from {prev} to {v['chain'][k - 1]}: " + f0, v)
+                    continue
                 rep.violation('chain:' + json.dumps(v['chain']),
                               f"chain {v['chain']}: " + '; '.join(v['failed'][:2]), v)
     cov = dict(states=r.distinct, transitions=r.generated,
@@ -327,6 +347,7 @@ def check_describe(sch):
     std = st['boot'].std_schema()
     full = st['s_schema'].ChainedSchema(std, real, st['s_schema'].EMPTY_SCHEMA)
     bad = []
+    alias_bad = []
     texts = {}
     try:
         texts['DDL'] = s_ddl.ddl_text_from_schema(full)
@@ -361,8 +382,14 @@ def check_describe(sch):
                            f'module {sess["module"]!r} aliases {sess["aliases"]}: '
                            f'{type(e).__name__}: {str(e)[:160]}')
             if bad:
+                # the alias-shadowing configuration fails by design (a recorded
+                # finding): keep checking the other language / configurations
+                if all("aliases {'default': 'other'}" in f for f in bad):
+                    alias_bad = alias_bad or list(bad)
+                    bad = []
+                    continue
                 return bad, None
-    return bad, None
+    return (bad or alias_bad), None
 
 
 def _c03_job(schemas):
